@@ -52,6 +52,16 @@ def gen(ctx):
         for nm in ("x" + ch, "track" + ch, ch + "x", "find" + ch + "y"):
             cases.append("cmd_build " + hexs(nm))
             meta.append((nm, []))
+    # long arguments with a character that needs escaping at every offset around the sizes a staging buffer or a chunked copy might
+    # have (64, 128, 256, 512, 1024, 4096 and their neighbours), alone and after earlier escapes that shift the offsets
+    for size in (64, 128, 256, 512, 768, 1024, 4096):
+        offs = range(size - 4, size + 4) if ctx.tier == "thorough" or size in (256, 512) else (size - 2, size - 1, size, size + 1)
+        for off in offs:
+            for ch in ('"', "'", "\\"):
+                base = "My Music/" + "x" * max(0, off - 9)
+                add("add", [base[:off] + ch + " live.flac"])
+                if off > 20:
+                    add("add", ["it's " + base[5:off - 1] + ch + ch + "end"])        # an earlier escape shifts everything by one
     n_random = 600 if ctx.tier == "quick" else 6000
     for _ in range(n_random):
         name = rng.choice(NAMES[:6]) if rng.random() < 0.95 else rng.choice(NAMES)
